@@ -12,7 +12,8 @@ for p in parts:
     rs = [re.sub(r'/root/\.vp/runs/\d+/verif/', '', l) for l in lines if l.startswith('| C')]
     seeds = sorted({r.split('|')[1].strip() for r in rs})
     notes.append(f"* {len(seeds)} seeds, {len(rs)} (seed, check) rows: /verif commit {commit}")
-    rows += rs
+    # a later part supersedes the rows of the seeds it re-runs
+    rows = [r for r in rows if r.split('|')[1].strip() not in seeds] + rs
 def key(r):
     s = r.split('|')[1].strip()
     a, b = s.split('-')
